@@ -90,17 +90,19 @@ reg("C07", "other",
     "Every overflow/bounds/division check of the dev profile, every panic!/debug_assert!/unwrap and every allocation reachable "
     "from the reader API is inventoried (one instance per function, operation and operand role) and must be shown in range by "
     "intervals propagated from the read primitives under the path's guards; iterator item paths must advance a well-founded "
-    "measure; reader loops must be collection-driven or read-driven. The pinned tree has 50 genuine findings (negative counts, "
+    "measure; reader loops must be collection-driven or read-driven. The pinned tree had 50 genuine findings (negative counts, "
     "lengths >= 2^30 doubled in i32, offset differences, a debug_assert on offsets, capacity from negative counts, no progress "
-    "after an error without index), each listed by key in known_findings.jsonl; any new unchecked operation has a new key and "
-    "is reported. Not decided: stack depth, panics inside dbase, allocation failure.")
+    "after an error without index); they were repaired in /repo by three fix: commits (3f7b05f, fbe4e97, efa6a4d), recorded as "
+    "fixed: lines in known_findings.jsonl, and the check now holds with no known finding: any unchecked operation on a value "
+    "derived from the input is reported. Not decided: stack depth, panics inside dbase, allocation failure.")
 reg("C17", "other",
     "taint + interval analysis of allocation sizes on the reader call graph (E5)",
     "Decides the structural necessary condition 'no allocation is sized by a count declared in the input without a bound': every "
     "with_capacity / vec![_; n] on the reader graph must be untainted, constant-bounded or sized by a collection already in "
     "memory, and every push in a reader loop must be paid for by a read of the same iteration or iterate an in-memory "
-    "collection. 8 genuine findings on the pinned tree (known_findings.jsonl). The 64x multiplier is a runtime quantity and is "
-    "not decided.")
+    "collection. The 8 genuine findings of the pinned tree were repaired by fix: commit ee4331f (reservations capped at "
+    "MAX_PREALLOCATED_ELEMENTS = 1024 elements; growth by push, paid for by reads); the check now holds with no known finding. "
+    "The 64x multiplier is a runtime quantity and is not decided.")
 reg("C16", "other",
     "abstract paths of the ring/patch constructors: effect whitelist, reversal table (E1), polynomial identity of the orientation sum (E2)",
     "Structural clauses decided on every path of the constructors: every GenericPolygon constructor routes every ring through "
